@@ -8,12 +8,13 @@ from . import builder, codec
 from . import loadeval as loaderx
 
 EXPLANATION = (
-    "Every instruction-emitting Builder method (1121 of 1175) is read symbolically: opcode, result type/id presence, the "
-    "operand slots built from its parameters, and the container it emits into. R-SECT joins (opcode, container) with the "
-    "loader's extracted automaton in the state the loader is in when it meets that instruction in the assembled stream; "
-    "R-SLOT compares the slots operand for operand with the grammar row of the opcode (kinds mapped through the parser's own "
-    "kind->variant table, quantifiers, parameter order); R-NAME ties method names and docs to opcodes; R-VER checks that the "
-    "two version packing functions are inverse. Value equality for all argument values is not computed.")
+    "Every instruction-emitting Builder method (1121 of 1175) is summarised: opcode, result type/id presence, the operand slots built "
+    "from its parameters, and the container it emits into (generated methods by their template shape; hand-written ones by evaluating "
+    "them on a builder with a selected block / nothing selected, optional arguments absent, present and each alone, two-element "
+    "slices). R-SECT joins (opcode, container) with the loader's table in the state the loader is in when it meets that instruction "
+    "in the assembled stream; R-SLOT compares the slots operand for operand with the grammar row of the opcode (kinds mapped through "
+    "the parser's own kind->variant table, quantifiers, parameter order); R-NAME ties method names and docs to opcodes; R-VER "
+    "evaluates set_version/version. Value equality for all argument values is not computed.")
 EXHAUSTIVE = True
 
 GENERIC_PARAMS = {"result_type", "result_id", "insert_point"}
